@@ -453,6 +453,12 @@ func Structured(thorough bool) []Lazy {
 		for i, l := range lists {
 			i, l := i, l
 			addLazy("op", fmt.Sprintf("create-with-jsonpatch/%d", i), func() []byte { return ops.Bytes(ops.ValidCreate(recK, updK, wrap(l), 18, nil)) })
+			if i%4 == 0 {
+				// ... followed by a typed patch in the same delta
+				addLazy("op", fmt.Sprintf("create-with-jsonpatch-and-follower/%d", i), func() []byte {
+					return ops.Bytes(ops.ValidCreate(recK, updK, append(wrap(l), ops.ParseJSON(`{"action":"add-services","services":[{"id":"f1","type":"T","serviceEndpoint":"https://f.example/"}]}`)), 18, nil))
+				})
+			}
 			if i%5 < 2 {
 				addLazy("op", fmt.Sprintf("recover-with-jsonpatch/%d", i), func() []byte {
 					return ops.Bytes(ops.ValidRecover("EiAbc", recK, nextR, nextU, wrap(l), 18, nil, ops.Window{}))
